@@ -49,8 +49,8 @@ VARIABLES m, hist
 vars == <<m, hist>>
 
 \* ------------------------------------------------------------------ order
-Order == SortIds(Keys, KB)                                   \* key ids ascending by bytes
-Rank == [k \in Keys |-> CHOOSE i \in 1..NKeys : Order[i] = k]
+Rank == [k \in Keys |-> 1 + Cardinality({j \in Keys : RleLess(KB[j], KB[k])})]   \* position of k in byte order
+Order == [i \in 1..NKeys |-> CHOOSE k \in Keys : Rank[k] = i]                     \* key ids ascending by bytes
 KLt(a, b) == Rank[a] < Rank[b]
 
 \* ------------------------------------------------------------------ sizes (the real free-space rule)
@@ -149,11 +149,13 @@ MapLaws ==
     /\ op.o = "del" => p[op.k] = Absent
     /\ op.o \in {"get", "fwd", "back"} => p = m
 
-\* the order on ids is the byte order (RLE and expanded), total and strict
-OrderIsByteOrder ==
-  /\ \A a, b \in Keys : a # b => (RleLess(KB[a], KB[b]) \/ RleLess(KB[b], KB[a]))
-  /\ \A a, b \in Keys : KLt(a, b) <=> RleLess(KB[a], KB[b])
-  /\ \A k \in Keys : RleWellFormed(KB[k])
-RleOrderAgrees ==
-  \A a, b \in Keys : RleLess(KB[a], KB[b]) <=> SeqLess(RleExpand(KB[a]), RleExpand(KB[b]))
+\* the order on ids is the byte order (RLE and expanded), total and strict.  (Parameterised: TLC evaluates every
+\* constant-level definition without parameters at start-up, used or not.)
+OrderIsByteOrder(K) ==
+  /\ \A a, b \in K : a # b => (RleLess(KB[a], KB[b]) \/ RleLess(KB[b], KB[a]))
+  /\ \A a, b \in K : KLt(a, b) <=> RleLess(KB[a], KB[b])
+  /\ \A k \in K : RleWellFormed(KB[k])
+  /\ \A i \in 1..NKeys : Rank[Order[i]] = i
+RleOrderAgrees(K) ==
+  \A a, b \in K : RleLess(KB[a], KB[b]) <=> SeqLess(RleExpand(KB[a]), RleExpand(KB[b]))
 =============================================================================
